@@ -28,6 +28,10 @@ pub fn install_panic_hook() {
     }));
 }
 
+pub fn last_panic() -> Option<(String, String)> {
+    LAST_PANIC.with(|p| p.borrow().clone())
+}
+
 #[derive(Debug, Clone, PartialEq)]
 pub enum Outcome {
     /// Ok(..) with a Debug rendering of the value.
